@@ -741,6 +741,11 @@ func (n *ExtendsNode) Render(w io.Writer, ctx *RenderContext) error {
 	// Pass along the parent template as lastLoadedTemplate for relative path resolution
 	parentCtx.lastLoadedTemplate = parentTemplate
 
+	// The macros the child defined or imported are known where its blocks are rendered
+	for name, macro := range ctx.macros {
+		parentCtx.SetMacro(name, macro)
+	}
+
 	// Ensure the context is released even if an error occurs
 	defer parentCtx.Release()
 
@@ -1528,6 +1533,18 @@ func (n *RootNode) Render(w io.Writer, ctx *RenderContext) error {
 
 	// If this template extends another, handle that first
 	if extendsNode != nil {
+		// What the child defines at its top level - macros, imports, variables -
+		// is in force inside its blocks: those tags are executed (they produce
+		// no output), everything else outside blocks is ignored
+		for _, child := range n.children {
+			switch child.(type) {
+			case *MacroNode, *ImportNode, *FromImportNode, *SetNode:
+				if err := child.Render(io.Discard, ctx); err != nil {
+					return err
+				}
+			}
+		}
+
 		// Let the extends node handle the rendering, passing along
 		// all our blocks so they're available to the parent template
 		return extendsNode.Render(w, ctx)
